@@ -105,9 +105,9 @@ Fixpoint line_constraints (line : list plink) (i : N) (root_index : N) (root_off
   end.
 
 Fixpoint lines_constraints (lines : list (list plink)) (node_to_key : list (N * pgkey)) (node_to_root : list (N * N))
-  : res (list pgconstraint) :=
+  : res (list pgconstraint * list (N * pgkey)) :=
   match lines with
-  | [] => Ok []
+  | [] => Ok ([], node_to_key)
   | [] :: rest => lines_constraints rest node_to_key node_to_root      (* lines are never empty *)
   | ((first :: _) as line) :: rest =>
       let root := fst (fst first) in
@@ -117,17 +117,33 @@ Fixpoint lines_constraints (lines : list (list plink)) (node_to_key : list (N * 
         | None => (N.of_nat (length node_to_root), node_to_root ++ [(root, N.of_nat (length node_to_root))])
         end in
       let* r := line_constraints line 0 root_index (snd (fst first)) node_to_key in
-      let* cs := lines_constraints rest (snd r) node_to_root' in
-      Ok (fst r ++ cs)
+      let* r2 := lines_constraints rest (snd r) node_to_root' in
+      Ok (fst r ++ fst r2, snd r2)
+  end.
+
+(** the constraint vector together with the key given to each pattern node *)
+Definition pg_cvec_full (g : pghost) (root : N) : res (list pgconstraint * list (N * pgkey)) :=
+  match pg_links g with
+  | [] => Ok ([mk HasNodeWeight [PathRoot 0]], [(root, PathRoot 0)])
+  | _ =>
+      let* r := lines_constraints (line_partition g root) [(root, PathRoot 0)] [(root, 0)] in
+      match fst r with
+      | [] => Ok ([mk (IsNotEqual 0) [PathRoot 0]], snd r)
+      | _ => Ok r
+      end
   end.
 
 Definition pg_constraint_vec (g : pghost) (root : N) : res (list pgconstraint) :=
-  match pg_links g with
-  | [] => Ok [mk HasNodeWeight [PathRoot 0]]
-  | _ =>
-      let* cs := lines_constraints (line_partition g root) [(root, PathRoot 0)] [(root, 0)] in
-      match cs with
-      | [] => Ok [mk (IsNotEqual 0) [PathRoot 0]]
-      | _ => Ok cs
-      end
-  end.
+  let* r := pg_cvec_full g root in Ok (fst r).
+
+(** ** validation of one pattern: every link is on some line (in either
+    orientation), every live node got a key *)
+Definition link_as_plink (l : N * N * N * N) : plink :=
+  let '(a, oa, b, ib) := l in ((a, POut oa), (b, PIn ib)).
+
+Definition lines_cover (g : pghost) (root : N) : bool :=
+  let all := concat (line_partition g root) in
+  forallb (fun l => existsb (plink_same (link_as_plink l)) all) (pg_links g).
+
+Definition nodes_keyed (g : pghost) (nk : list (N * pgkey)) : bool :=
+  forallb (fun n => existsb (fun e => N.eqb (fst e) n) nk) (live_nodes g).
